@@ -204,7 +204,9 @@ def q_local_from_regex(F, cg, rep):
 def q_pushes_literals(F, cg, rep):
     f = F.fn("crate::version::pep440::to_zerv::<impl crate::version::pep440::core::PEP440>::to_zerv_with_schema")
     if f is None: return False, "anchor missing"
-    fns = [F.fns[p] for p in cg.closure([f.path], generic=False) if p in F.fns and p.startswith("crate::version::pep440::to_zerv")]
+    # helpers of the conversion are spliced in, so a component built by a helper is still seen as the literal it is
+    fns = [mir.inlined(F, f, depth=4, ok=lambda F_, caller, cp, g: g is not None and g.kind != "closure" and cp.startswith("crate::version::pep440::to_zerv"))]
+    fns += [c for c in mir.closures_in(F, fns[0])]
     n = 0; bad = []
     for g in fns:
         for bi, t in g.calls():
@@ -290,6 +292,26 @@ AUDIT = [
 
 # ---------------------------------------------------------------------------
 
+def lifted_discharge(F, s, ctx, cg, depth=0):
+    """A site inside a helper (an index whose bound is checked by the caller, a capture-group name passed as an argument):
+    splice the helper into each direct caller and run the recognisers on the spliced copy; every caller must discharge it."""
+    if s.fn.kind == "closure" or depth > 2: return False, "closure / too deep"
+    callers = [(g, b) for g, b in cg.sites.get(s.fn.path, []) if g.path in F.fns and g.path != s.fn.path]
+    if not callers: return False, "no direct local caller"
+    whys = []
+    for g, b in callers:
+        gi = mir.inlined(F, g, depth=1, ok=lambda F_, caller, cp, h: cp == s.fn.path and h is not None)
+        copies = [bi for bi, blk in enumerate(gi.blocks) if blk.get("orig") == (s.fn.path, s.bi)]
+        if not copies: return False, "call from %s not spliceable" % g.path
+        for bi in copies:
+            s2 = panics.Site(gi, bi, s.kind, gi.blocks[bi]["t"], 0)
+            ok, why = panics.auto(F, s2, ctx)
+            if not ok:
+                # one level further up
+                return False, "in %s: %s" % (g.path.replace("crate::", ""), why)
+            whys.append(why)
+    return True, "; ".join(sorted(set(whys)))[:300]
+
 def check(F, rep, tier):
     root = F.fn(ROOT); rwa = F.fn(RWA)
     if not rep.anchor("R13", ROOT, root) or not rep.anchor("R13", RWA, rwa):
@@ -328,6 +350,12 @@ def check(F, rep, tier):
                 rep.ok("R13.1", "%s: audited - %s; requires re-checked: %s" % (key, a[1], detail), sample=s.where(), nontrivial_key=key)
             else:
                 rep.bad("R13.1", "audit-stale:" + key, "the audited argument for this panic site (%s) no longer holds on this tree: %s" % (a[1], detail), s.where())
+            continue
+        # not dischargeable inside the function alone: judge the site in the context of every direct caller (helper spliced in)
+        lok, lwhy = lifted_discharge(F, s, ctx, cg)
+        if lok:
+            n_auto += 1
+            rep.ok("R13.1", "%s: discharged in the context of each caller - %s" % (key, lwhy), sample=s.where(), nontrivial_key=key)
             continue
         rep.bad("R13.1", "unaudited-panic:" + key, "reachable panic-capable construct %s without a recognised discharge%s (path: %s)" % (
             s.kind, (": " + why) if why else "", " -> ".join(x.replace("crate::", "") for x in cg.path_to(s.fn.path)[-4:])), s.where())
